@@ -872,7 +872,31 @@ def op_trigger_column(g, dv, protected):
   return [["AddColumn", t.tableId, g.new_col_id("t"), info]]
 
 
+def op_derived_trigger(g, dv, protected):
+  """A data column whose trigger formula has a side effect when evaluated: it looks a record up in
+  another table and adds it when missing (what summary tables do). With recalcWhen NEVER the cells
+  are only ever evaluated by read-only calls (get_formula_error, evaluate_formula), at a time when
+  the record they would add may well be missing."""
+  ts = [t for t in data_tables(dv) if len(t.user_cols()) < g.max_cols]
+  if not ts:
+    return None
+  t = g.rng.choice(ts)
+  srcs = [c for c in t.user_cols() if not c.isFormula and c.pure in ("Int", "Text", "Choice")]
+  if not srcs:
+    return None
+  a = g.rng.choice(srcs)
+  tgts = [(tt, c) for tt in data_tables(dv) for c in tt.user_cols()
+          if not c.isFormula and not c.formula and c.pure == a.pure and (tt is not t or c is not a)]
+  if not tgts:
+    return None
+  tt, c = g.rng.choice(tgts)
+  f = "%s.lookupOrAddDerived(%s=$%s).id" % (tt.tableId, c.colId, a.colId)
+  return [["AddColumn", t.tableId, g.new_col_id("t"),
+           {"type": "Int", "isFormula": False, "formula": f, "recalcWhen": g.rng.choice([2, 2, 0])}]]
+
+
 OPS = {
+  "derived_trigger": op_derived_trigger,
   "add_records": op_add_records,
   "update_records": op_update_records,
   "remove_records": op_remove_records,
@@ -910,7 +934,7 @@ DEFAULT_WEIGHTS = {
   "add_view_section": 1, "add_summary": 3, "update_summary": 2, "detach_summary": 1,
   "add_summary_formula": 1, "remove_view_things": 1, "add_view": 1, "page_indent": 1, "set_sort": 1,
   "add_reverse": 1, "display_formula": 1, "add_rule": 1, "duplicate_table": 1,
-  "trigger_column": 1,
+  "trigger_column": 1, "derived_trigger": 0,
 }
 
 
